@@ -310,6 +310,9 @@ func seqCall(o *vh.Out, line func() string, conn net.Conn, st *stream, buf []byt
 		}
 		return res.String()
 	}
+	for len(st.entered) > 0 { // forget the calls of earlier operations
+		<-st.entered
+	}
 	ch := make(chan result, 1)
 	go func() { n, err := f(buf); ch <- result{n, err} }()
 	select {
@@ -601,10 +604,24 @@ func stressCase(cfg stressCfg, o *vh.Out) {
 			return
 		}
 	}
-	for _, s := range append(append([]call(nil), sink...), src...) {
-		if s.start > cr {
-			fail("stream-used-after-close", fmt.Sprintf("underlying stream called at %d, Close returned at %d", s.start, cr))
-			return
+	// A buffer handed to the feeder before Close may still reach the stream afterwards (the feeder
+	// goroutine had already taken it), but nothing of a call STARTED after Close returned may.
+	earlyReads := 0
+	for _, c := range snap {
+		if !c.write && c.who != 99 && c.inv < cr {
+			earlyReads++
+		}
+	}
+	if len(src) > earlyReads {
+		fail("stream-used-after-close", fmt.Sprintf("%d source calls but only %d Read calls were started before Close returned", len(src), earlyReads))
+		return
+	}
+	for _, s := range sink {
+		for _, c := range snap {
+			if c.write && c.buf == s.buf && c.inv > cr {
+				fail("stream-used-after-close", fmt.Sprintf("Write(%q) started at %d after Close returned at %d reached the sink", c.buf, c.inv, cr))
+				return
+			}
 		}
 	}
 	// calls to each stream never overlap (the feeder serialises them)
